@@ -149,7 +149,7 @@ def stream_traces(ctx, kinds, n, structure_only=False, check_err_id=True):
     bindir = build_harness(["streams"])
     what = ("stateful streams on arbitrary floats (category, error identity, timestamp, purity, reset / skip twins)" if structure_only else
             "stateful streams on arbitrary floats (category, error identity, timestamp, reset / skip / shift / scale / variant twins, filter bounds, f64 reference)")
-    trace_check(ctx, "StreamsTrace", bindir, "streams", [ctx.seed, n, ",".join(kinds)], "floats", what,
+    trace_check(ctx, "StreamsTrace", bindir, "streams", [ctx.seed, n, ",".join(kinds)] + (["huge"] if structure_only else []), "floats", what,
                 "streams_trace", timeout=1500, constants={"StructureOnly": structure_only, "CheckErrId": check_err_id})
 
 
